@@ -51,7 +51,8 @@ type Exec struct {
 	md *multiState
 
 	noRoundChecks bool
-	storeHasAll   bool
+	storeSurelyAll bool
+	storeMaybeAll  bool
 
 	segmentlessFooter bool // a round left a footer tree without any persisted segment
 }
@@ -850,11 +851,32 @@ func (e *Exec) checkStore(why string) int {
 	}
 	// equal-content batches make the index ambiguous: "holds everything" means
 	// that the full reference content is among the matches
-	e.storeHasAll = contains(J, e.hist.N())
-	if e.storeHasAll {
+	// equal-content batches make the index ambiguous.  "Surely holds everything":
+	// the most lenient assignment is the full reference; "maybe": the full
+	// reference content is among the matches, which counts only together with
+	// the collection's own report that nothing is dirty (see caughtUp).
+	e.storeSurelyAll = j == e.hist.N()
+	e.storeMaybeAll = contains(J, e.hist.N())
+	if e.storeSurelyAll {
 		e.drained = true
 	}
 	return j
+}
+
+// caughtUp: persistence has caught up with the last executed batch.  Called
+// when the background tasks are idle.
+func (e *Exec) caughtUp() bool {
+	if e.storeSurelyAll {
+		return true
+	}
+	if !e.storeMaybeAll || !e.collOpen {
+		return false
+	}
+	st, err := e.coll.Stats()
+	if err != nil || st == nil {
+		return false
+	}
+	return st.CurDirtyOps == 0 && st.CurDirtyBytes == 0 && st.CurDirtySegments == 0 && !simrt.OthersEligible()
 }
 
 // turnChecks run after every driver operation, according to the case's flags.
@@ -902,7 +924,7 @@ func (e *Exec) drain() bool {
 		e.verifyMode(true)
 		e.checkStore("drain")
 		e.verifyMode(false)
-		if e.storeHasAll {
+		if e.caughtUp() {
 			e.drained = true
 			e.gaugesSettle()
 			return true
